@@ -439,6 +439,7 @@ type Contract struct {
 	CallSiteEns  map[string][]*Clause // callee name -> facts assumed after each call in this function (trusted)
 	CallSiteMods map[string][]*Clause // callee name -> locations havocked at each call in this function (trusted)
 	CloseOnly  []string             // type block: channel fields that are never sent on, only closed
+	AssumeAt   []*Clause            // trusted facts assumed right after the statement whose source line contains Label
 	LockAssume []*Clause            // assumed right after every Lock in this function (token arguments); listed as assumptions
 	GhostDefs  [][2]*Clause         // ghost assignments at return: location, value
 }
@@ -456,7 +457,7 @@ var clauseKeywords = map[string]bool{
 	"property": true, "mode": true, "requires": true, "ensures": true, "modifies": true, "reads": true,
 	"loop": true, "assert": true, "pure": true, "inline": true, "trusted": true, "unproved": true,
 	"assume": true, "option": true, "expect": true, "def": true, "unfold": true, "macro": true, "guards": true,
-	"invariant": true, "rely": true, "ghost": true, "replay": true, "package": true, "end": true, "ghostfield": true, "let": true, "callsite": true, "closeonly": true, "lockassume": true, "ghostdef": true,
+	"invariant": true, "rely": true, "ghost": true, "replay": true, "package": true, "end": true, "ghostfield": true, "let": true, "callsite": true, "closeonly": true, "lockassume": true, "ghostdef": true, "assumeat": true,
 }
 
 func firstWord(s string) (string, string) {
@@ -655,6 +656,22 @@ func ParseContractFile(path string, pkg string) (*ContractFile, error) {
 				return nil, err
 			}
 			cur.LockAssume = append(cur.LockAssume, cl)
+		case "assumeat":
+			// assumeat "<source snippet>" <expr> : trusted fact about the state right after that statement
+			r := strings.TrimSpace(rest)
+			if !strings.HasPrefix(r, "\"") {
+				return nil, fail("assumeat \"<source snippet>\" <expr>")
+			}
+			j := strings.Index(r[1:], "\"")
+			if j < 0 {
+				return nil, fail("assumeat \"<source snippet>\" <expr>")
+			}
+			cl, err := mkClause("assumeat", strings.TrimSpace(r[j+2:]), l.line)
+			if err != nil {
+				return nil, err
+			}
+			cl.Label = r[1 : j+1]
+			cur.AssumeAt = append(cur.AssumeAt, cl)
 		case "closeonly":
 			cur.CloseOnly = append(cur.CloseOnly, strings.Fields(strings.ReplaceAll(rest, ",", " "))...)
 		case "replay":
